@@ -288,3 +288,31 @@ Example C01_einsum_example :
   let dout := [PAx 4 5 false; PAx 1 2 false] in
   einsum_dot_ok d1 d2 dout = true /\ ein_subscripts d1 d2 dout = "'abc,cbd->da'"%string.
 Proof. vm_compute. split; reflexivity. Qed.
+
+(* dot on the einsum path, end to end.  The one assumption is about einsum, stated on axis names (the letters identify the
+   names faithfully, C01_einsum_letters_identify_the_axes): for output coordinates given by rho, if it finds both operands'
+   elements for every index combination j of the axes the output does not list, it returns the sum of their products.
+   Then the modelled lowering holds that sum at the position the output expression denotes - for every nesting, number of
+   axes and size ([at_s rho j]: rho with the summed axes at their j-th combination). *)
+From EinxV Require Import Proofs.EinsumSum.
+Theorem C01_einsum_dot_is_the_sum_of_products :
+  forall (inp : nat -> entries Z) F BC CC (d1 d2 dout : list pex),
+  forallb plain d1 = true -> forallb plain d2 = true -> forallb plain dout = true ->
+  NoDup (map nm (leaves d1)) -> NoDup (map nm (leaves d2)) ->
+  (forall x y, In x (leaves d1) -> In y (leaves d2) -> nm x = nm y -> ln x = ln y) ->
+  (forall (A B : entries Z) (rho : env) (a c : N -> Z),
+     (forall j, j < JS d1 d2 dout ->
+        In (map (lookup (at_s d1 d2 dout rho j)) (lnames d1), a j) A /\ In (map (lookup (at_s d1 d2 dout rho j)) (lnames d2), c j) B) ->
+     In (map (lookup rho) (lnames dout), zsum (JS d1 d2 dout) (fun j => (a j * c j)%Z))
+        (F "einsum"%string [A; B] [ein_subscripts d1 d2 dout; "kw:"%string])) ->
+  forall X Y : env -> Z,
+  (forall rho, in_bounds rho d1 -> In (map (pidx rho) d1, X rho) (inp 0%nat)) ->
+  (forall rho, in_bounds rho d2 -> In (map (pidx rho) d2, Y rho) (inp 1%nat)) ->
+  forall rho, in_bounds rho d1 -> in_bounds rho d2 -> in_bounds rho dout ->
+  In (map (pidx rho) dout, zsum (JS d1 d2 dout) (fun j => (X (at_s d1 d2 dout rho j) * Y (at_s d1 d2 dout rho j))%Z))
+     (meval Z inp F BC CC (lower_einsum_dot d1 d2 dout)).
+Proof.
+  intros inp F BC CC d1 d2 dout Hp1 Hp2 Hpo Hn1 Hn2 Hcoh Hein X Y HX HY rho.
+  exact (einsum_dot_is_the_sum_of_products inp F BC CC d1 d2 dout Hp1 Hp2 Hpo Hn1 Hn2 Hcoh Hein X Y HX HY rho).
+Qed.
+Print Assumptions C01_einsum_dot_is_the_sum_of_products.
